@@ -671,6 +671,15 @@ class Interp:
             return z3.Select(cont.mem, to_z3(x, kind_sort(cont.kkind)))
         if isinstance(cont, SMap):
             return z3.Select(cont.dom, to_z3(x, kind_sort(cont.kkind)))
+        if (isinstance(cont, SArr) and getattr(cont, 'slice_of', None) is not None
+                and len(cont.slice_of[3]) == len(cont.leaves) and all(x is y for x, y in zip(cont.slice_of[3], cont.leaves))):
+            # (only while the slice has not been written to since it was taken)
+            # x in base[lo:hi]  <=>  exists q, lo <= q < hi: base[q] == x   (same shape as a specification writes it: no re-indexing)
+            leaves, lo, hi, _ = cont.slice_of
+            q = fresh_int('q')
+            xz = self.flat_elem(x, cont.kind)
+            eq = z3.And(*[z3.Select(l, q) == e for l, e in zip(leaves, xz)])
+            return z3.Exists([q], z3.And(to_z3(lo) <= q, q < to_z3(hi), eq))
         if isinstance(cont, SArr):
             k = fresh_int('k')
             xz = self.flat_elem(x, cont.kind)
@@ -882,7 +891,8 @@ class Interp:
         i = self.norm_index(idx, n)
         if self.spec_mode:
             # total (no forking inside a specification): nested if-then-else over the segments, last segment as default
-            res = None
+            missing = object()          # (an element may itself be None)
+            res = missing
             offs = []
             for items, c in s.segs:
                 offs.append(off)
@@ -891,12 +901,12 @@ class Interp:
                 rel = self.binop(ast.Sub(), i, o)
                 r = self.binop(ast.Mod(), rel, len(items)) if len(items) > 1 else 0
                 el = self.getitem(items, r)
-                if res is None:
+                if res is missing:
                     res = el
                 else:
                     hi = self.binop(ast.Add(), o, self.binop(ast.Mult(), len(items), c))
                     res = self.ite(self.z3bool(self.compare(ast.Lt(), i, hi)), el, res)
-            if res is None:
+            if res is missing:
                 raise Unsupported('index into an empty segmented list inside a specification')
             return res
         for items, c in s.segs:
@@ -949,6 +959,7 @@ class Interp:
                 n = n.as_long() if z3.is_int_value(n) else n
                 r = SArr(n, [z3.Lambda([k], z3.Select(l, k + zs)) for l in a.leaves], a.kind, a.np)
                 r.view_of = a if a.np else None
+                r.slice_of = (list(a.leaves), zs, ze, tuple(r.leaves))
                 return r
         lo, hi = self.slice_bounds(sl, a.n)
         k = z3.Int('k!sl')
@@ -959,6 +970,8 @@ class Interp:
         # NOTE: numpy basic slices are views; writes through views are not modelled (refused in setitem)
         r = SArr(n, leaves, a.kind, a.np)
         r.view_of = a if a.np else None
+        if sl.step in (None, 1):
+            r.slice_of = (list(a.leaves), lo, hi, tuple(r.leaves))   # membership tests are stated over the indices of the base sequence (see contains)
         return r
 
     def arr_fancy(self, a, idx):
